@@ -2,9 +2,9 @@
 import sys
 import traceback
 
-from tools.tr import tr_datachecker, tr_wire
+from tools.tr import tr_datachecker, tr_handlers, tr_wire
 
-ALL = [("G06_datachecker", tr_datachecker.write), ("G02_registry", tr_wire.write)]
+ALL = [("G06_datachecker", tr_datachecker.write), ("G02_registry", tr_wire.write), ("G01_handlers", tr_handlers.write)]
 
 
 def main():
